@@ -526,6 +526,22 @@ func TestVerifC01(t *testing.T) {
 			{QID: QID{Type: TypeSymlink, Version: 5, Path: 6}, Offset: 3, Type: TypeSymlink, Name: "def"}}}
 		vh01SendMsg(o, m, "exactfit", tag(count), maximumLength)
 	}
+	// Rreaddir carries the longest PREFIX that fits: an entry that does not fit followed by shorter ones that would
+	// (sizes 25, 224, 25, 26; and the long one first)
+	long := string(vh01Pattern(200, 'L', 0))
+	for _, count := range []uint32{24, 25, 49, 50, 51, 76, 100, 248, 249, 250, 274, 275, 300} {
+		for _, first := range []bool{false, true} {
+			ents := []Dirent{
+				{QID: QID{Type: TypeDir, Version: 1, Path: 2}, Offset: 1, Type: TypeDir, Name: "a"},
+				{QID: QID{Type: TypeRegular, Version: 7, Path: 8}, Offset: 2, Type: TypeRegular, Name: long},
+				{QID: QID{Type: TypeRegular, Version: 3, Path: 4}, Offset: 3, Type: TypeRegular, Name: "b"},
+				{QID: QID{Type: TypeSymlink, Version: 5, Path: 6}, Offset: 4, Type: TypeSymlink, Name: "cd"}}
+			if first {
+				ents[0], ents[1] = ents[1], ents[0]
+			}
+			vh01SendMsg(o, &rreaddir{Count: count, Entries: ents}, "prefixfit", tag(count), maximumLength)
+		}
+	}
 	// a real Client and a real Server talking, both directions captured
 	for _, v := range []int{0, 7} {
 		vh01ConnScenario(o, v)
